@@ -207,6 +207,9 @@ def run_mpe(case):
     Svec = np.array([[[complex(z[0], z[1]) for z in ln] for ln in row] for row in case["Svec"]])
     sel = in_form(case["sel"], case.get("form", "list"))
     keep = (freq.copy(), Sval.copy(), Svec.copy(), in_form(case["sel"], case.get("form", "list")))
+    if case.get("readonly"):
+        for a in (freq, Sval, Svec) + ((sel,) if isinstance(sel, np.ndarray) else ()):
+            a.setflags(write=False)
     try:
         Fn, Phi = fdd.FDD_mpe(Sval, Svec, freq, sel, DF=df_form(case))
         out = (None, np.asarray(Fn), np.asarray(Phi))
@@ -228,7 +231,7 @@ def judge_mpe(ctx, case, model_s, site="FDD_mpe"):
     ctx.hist("mpe-outcome", exc or "ok")
     small = {k: case[k] for k in ("kind", "freq", "sel", "DF")}
     small.update(Sval=case["Sval"], Svec=case["Svec"])
-    small.update({k: case[k] for k in ("form", "DF_int") if k in case})
+    small.update({k: case[k] for k in ("form", "DF_int", "readonly") if k in case})
     if changed:
         ctx.fail("oracle", "%s modifies its argument(s) %s in place (the stored tables are no longer the decomposition of Sy)" % (site, changed), small,
                  key="C06:%s:args-mutated" % site)
@@ -242,6 +245,9 @@ def judge_mpe(ctx, case, model_s, site="FDD_mpe"):
             ctx.fail("correspondence", "%s returns where the model raises %sError" % (site, merr), small, key="C06:%s:corr-raise" % site)
     elif exc is not None:
         ctx.fail("correspondence", "%s raises %s where the model returns" % (site, exc), small, key="C06:%s:corr-raise" % site)
+        if case.get("readonly"):
+            ctx.fail("oracle", "%s raises %s when its input arrays are read-only (it has no business writing to them) on a valid band" % (site, exc),
+                     dict(small, readonly=True), key="C06:%s:readonly-raise" % site)
     if exc is None:
         nsel = len(case["sel"])
         if Fn.shape != (nsel,) or Phi.shape != (Svec.shape[1], nsel):
@@ -342,7 +348,7 @@ def scaled_case(case, k, j):
 
 # ----------------------------------------------------------------------------------------------------------------------
 # B / C oracle: stored singular values and vectors are a faithful decomposition of Sy (property text, NumPy only)
-def faithful(ctx, Sy, S_val, S_vec, case, site):
+def faithful(ctx, Sy, S_val, S_vec, case, site, tol=1e-8):
     nr, nc, nf = Sy.shape
     key = "C06:%s:" % site
     if S_val.shape != (nc, nc, nf) or S_vec.shape != (nr, nr, nf):
@@ -356,11 +362,11 @@ def faithful(ctx, Sy, S_val, S_vec, case, site):
         if np.abs(off).max() > 0 or np.abs(np.imag(S_val[:, :, k])).max() > 0:
             ctx.fail("oracle", "%s: stored singular values are not a real diagonal at line %d" % (site, k), case, key=key + "diag")
             return None
-    if d.min() < 0 or np.any(d[:, :-1] - d[:, 1:] < -TOL * max(d.max(), 1e-300)):
+    if d.min() < 0 or np.any(d[:, :-1] - d[:, 1:] < -max(TOL, tol) * max(d.max(), 1e-300)):
         ctx.fail("oracle", "%s: stored singular values are not non-negative and non-increasing" % site, case, key=key + "order")
         return None
-    as_sqrt = np.abs(d * d - sv).max() <= 1e-8 * scale
-    as_sig = np.abs(d - sv).max() <= 1e-8 * scale
+    as_sqrt = np.abs(d * d - sv).max() <= tol * scale
+    as_sig = np.abs(d - sv).max() <= tol * scale
     if not (as_sqrt or as_sig):
         ctx.fail("oracle", "%s: stored values are neither the singular values nor (consistently) their square roots (max dev %.3g / %.3g)"
                  % (site, np.abs(d * d - sv).max() / scale, np.abs(d - sv).max() / scale), case, key=key + "values")
@@ -369,14 +375,14 @@ def faithful(ctx, Sy, S_val, S_vec, case, site):
     sig = d * d if as_sqrt else d
     for k in range(nf):
         W = S_vec[:, :, k]
-        if np.abs(W @ W.conj().T - np.eye(nr)).max() > 1e-8 or np.abs(W.conj().T @ W - np.eye(nr)).max() > 1e-8:
+        if np.abs(W @ W.conj().T - np.eye(nr)).max() > tol or np.abs(W.conj().T @ W - np.eye(nr)).max() > tol:
             ctx.fail("oracle", "%s: stored singular vectors are not unitary at line %d" % (site, k), case, key=key + "unitary")
             return None
         G = Sy[:, :, k] @ Sy[:, :, k].conj().T
         D = np.zeros(nr)
         D[:nc] = sig[k] ** 2
         # rows of S_vec = conj of the left singular vectors: Sy Sy^H = S_vec^H diag(sigma^2) S_vec
-        if np.abs(W.conj().T @ np.diag(D) @ W - G).max() > 1e-8 * max(np.abs(G).max(), 1e-300):
+        if np.abs(W.conj().T @ np.diag(D) @ W - G).max() > tol * max(np.abs(G).max(), 1e-300):
             ctx.fail("oracle", "%s: S_vec^H diag(sigma^2) S_vec does not reconstruct Sy Sy^H at line %d (rows of S_vec are not the conjugated left singular vectors)"
                      % (site, k), case, key=key + "recon")
             return None
@@ -412,6 +418,8 @@ def part_B(ctx):
         ctx.hist("svalsvec-shape", (nr, nc, "herm" if herm else "rect"))
         try:
             SD_in = SD.copy()
+            if c % 3 == 1:
+                SD_in.setflags(write=False)
             S_val, S_vec = fdd.SD_svalsvec(SD_in)
             if not np.array_equal(SD_in, SD):
                 ctx.fail("oracle", "SD_svalsvec modifies the spectral matrix it is given", case, key="C06:SD_svalsvec:args-mutated")
@@ -513,6 +521,101 @@ def part_B_zero(ctx, corpus_cases=()):
             continue
         ctx.count(case, nontrivial=True)
         faithful(ctx, SD, np.asarray(S_val), np.asarray(S_vec), case, "SD_svalsvec")
+
+
+DTYPES = (("int64", np.int64, 1e-8), ("int32", np.int32, 1e-8), ("float64", np.float64, 1e-8), ("float32", np.float32, 2e-4),
+          ("complex64", np.complex64, 2e-4), ("complex128", np.complex128, 1e-8))
+
+
+def part_B_dtypes(ctx, corpus_specs=()):
+    """the same spectral-matrix sequence in other storage dtypes: integer-valued real symmetric PSD sequences (G G^T) as
+    int64 / int32 / float64 / float32, complex Hermitian ones (A A^H, small Gaussian integers) as complex64, each next to
+    its complex128 image.  SD_svalsvec must be faithful at every line in every form, and FDD_mpe on the stored pair must
+    pick the same line and give MAC 1 with conj(u1) of the complex128 image (tolerance by precision for 32-bit forms).
+    Inputs are handed over read-only in every other form."""
+    rng = ctx.np_rng
+
+    def one(spec):
+        g = np.random.default_rng(int(spec["seed"]))
+        n, nf, cplx_ = int(spec["n"]), int(spec["nf"]), bool(spec["complex"])
+        G = g.integers(-3, 4, size=(n, n + 1, nf)).astype(float)
+        if cplx_:
+            G = G + 1j * g.integers(-3, 4, size=(n, n + 1, nf))
+        img = np.stack([G[:, :, k] @ G[:, :, k].conj().T for k in range(nf)], axis=2).astype(np.complex128)
+        freq = 0.5 * np.arange(nf)
+        sel, DF = [float(freq[nf // 2])], float(spec["DF"])
+        sv = np.array([np.linalg.svd(img[:, :, k], compute_uv=False) for k in range(nf)])
+        ratio = np.sqrt(sv[:, 0] / sv[:, 1])
+        ref = None
+        forms = [d for d in DTYPES if (d[0].startswith("complex") if cplx_ else True)]
+        for j, (name, dt, tol) in enumerate(forms[::-1]):      # complex128 image first
+            SD = (img if name.startswith("complex") else img.real).astype(dt)
+            ro = (j + int(spec["seed"])) % 2 == 1
+            case = dict(spec, kind="svalsvec-dtype", dtype=name, readonly=ro, SD=[[[cplx(z) for z in ln] for ln in row] for row in img])
+            SD_in = SD.copy()
+            fq = freq.copy()
+            if ro:
+                SD_in.setflags(write=False)
+                fq.setflags(write=False)
+            try:
+                S_val, S_vec = fdd.SD_svalsvec(SD_in)
+            except Exception as e:  # noqa: BLE001
+                ctx.fail("oracle", "SD_svalsvec raises %s on a %s spectral matrix sequence%s" % (type(e).__name__, name, " handed over read-only" if ro else ""),
+                         case, key="C06:SD_svalsvec:dtype-raise")
+                continue
+            ctx.count({k: v for k, v in case.items() if k != "SD"}, nontrivial=True)
+            ctx.hist("svalsvec-dtype", (name, "read-only" if ro else "writable"))
+            if not np.array_equal(SD_in, SD):
+                ctx.fail("oracle", "SD_svalsvec modifies the spectral matrix it is given", case, key="C06:SD_svalsvec:args-mutated")
+            if faithful(ctx, img, np.asarray(S_val), np.asarray(S_vec), case, "SD_svalsvec", tol=tol) is None:
+                continue
+            Sv, Sw = np.asarray(S_val), np.asarray(S_vec)
+            if ro:
+                Sv.setflags(write=False)
+                Sw.setflags(write=False)
+            try:
+                Fn, Phi = fdd.FDD_mpe(Sv, Sw, fq, list(sel), DF=DF)
+            except Exception as e:  # noqa: BLE001
+                ctx.fail("oracle", "FDD_mpe raises %s on the pair stored for a %s sequence%s" % (type(e).__name__, name, " (read-only inputs)" if ro else ""),
+                         case, key="C06:FDD_mpe:dtype-raise")
+                continue
+            Fn, Phi = np.asarray(Fn), np.asarray(Phi)
+            where = np.nonzero(freq == Fn[0])[0]
+            if len(where) != 1:
+                ctx.fail("oracle", "FDD_mpe (%s sequence): Fn=%r is not a grid line" % (name, float(Fn[0])), case, key="C06:FDD_mpe:fn-off-grid")
+                continue
+            idx = int(where[0])
+            ok, judged = pick_ok(freq, ratio, sel[0], DF, idx)
+            lo, hi = nearest_set(freq, sel[0] - DF)[0], nearest_set(freq, sel[0] + DF)[-1]
+            top = np.sort(ratio[lo : hi + 1])[::-1]
+            if not judged or (len(top) > 1 and top[1] >= top[0] * (1 - 10 * tol)):
+                ctx.not_judged += 1
+                continue
+            if not ok:
+                ctx.fail("oracle", "FDD_mpe (%s sequence): Fn=%r is not the line of the band where sigma1/sigma2 is largest" % (name, float(Fn[0])), case,
+                         key="C06:FDD_mpe:dtype-pick")
+                continue
+            if sv[idx, 0] - sv[idx, 1] < 0.05 * sv[idx, 0]:
+                ctx.not_judged += 1
+                continue
+            U = np.linalg.svd(img[:, :, idx])[0]
+            m = mac(Phi[:, 0], U[:, 0].conj())
+            if not (m >= 1 - 10 * tol) or not unity_ok(Phi[:, 0], 10 * tol):
+                ctx.fail("oracle", "FDD_mpe (%s sequence): Phi = %s has MAC %.6g with the dominant singular vector of the matrix at the picked line (1 expected)"
+                         % (name, np.round(Phi[:, 0], 4).tolist(), m), case, key="C06:FDD_mpe:dtype-mac")
+                continue
+            if ref is None:
+                ref = (Fn, Phi)
+            elif not np.array_equal(ref[0], Fn) or np.abs(ref[1] - Phi).max() > 50 * tol:
+                ctx.fail("oracle", "FDD_mpe: the %s form of the sequence gives Fn %s / Phi %s, its complex128 image %s / %s"
+                         % (name, Fn.tolist(), np.round(Phi[:, 0], 5).tolist(), ref[0].tolist(), np.round(ref[1][:, 0], 5).tolist()), case,
+                         key="C06:FDD_mpe:dtype-differs")
+
+    for spec in corpus_specs:
+        one(spec)
+    for c in range(ctx.n(6, 30)):
+        one(dict(n=int(rng.integers(2, 5)), nf=int(rng.integers(7, 13)), complex=bool(c % 3 == 2), DF=float(rng.choice([1.0, 1.5, 2.0])),
+                 seed=int(rng.integers(0, 2**31))))
 
 
 # ----------------------------------------------------------------------------------------------------------------------
@@ -717,6 +820,8 @@ def part_C(ctx, corpus_nb=()):
         DF2 = float(df * rng.choice([v for v in (1.0, 2.0, 3.5, 5.0) if v * df != DF]))
         for cls in (FDD, EFDD, FSDD):
             x_in = x.copy()
+            if c % 2 == 1:
+                x_in.setflags(write=False)      # the classes never write to the caller's array
             ss = SingleSetup(x_in, fs=fs)
             alg = cls(name="a", nxseg=nxseg, method_SD=method)
             ss.add_algorithms(alg)
@@ -770,6 +875,9 @@ def part_C(ctx, corpus_nb=()):
         DF2 = float(df * rng.choice([v for v in (1.0, 2.0, 3.0, 4.5) if v * df != DF]))
         for cls in (FDD_MS, EFDD_MS):
             d_in = [d.copy() for d in datasets]
+            if c % 2 == 1:
+                for d in d_in:
+                    d.setflags(write=False)
             ms = MultiSetup_PreGER(fs=fs, ref_ind=[list(r) for r in ref_ind], datasets=d_in)
             alg = cls(name="m", nxseg=nxseg, method_SD="per" if c % 2 else "cor")
             ms.add_algorithms(alg)
@@ -1211,6 +1319,7 @@ def part_C_refill(ctx, corpus_specs=()):
             # (b) fresh arrays of the same shape, one after the other (the previous one is released first)
             for i in list(range(nrec)) + list(range(nrec)):
                 arr = spectra[i].copy()
+                arr.setflags(write=False)
                 Phi = analyse(arr, freq, method_sd, meth, sel, DF1)
                 judge(spectra[i], freq, Phi, sel, DF1, dict(base, method_mpe=meth, step="fresh array record%d" % i), "EFDD_mpe")
                 del arr
@@ -1381,6 +1490,7 @@ def run(ctx):
     corpus_nb = [c for c in cases[:ncorp] if c and c.get("kind") == "narrow-band"]
     corpus_plot = [c for c in cases[:ncorp] if c and c.get("kind") == "plot-path"]
     corpus_zero = [c for c in cases[:ncorp] if c and c.get("kind") == "svalsvec-zero"]
+    corpus_dtype = [c for c in cases[:ncorp] if c and c.get("kind") == "svalsvec-dtype"]
     corpus_refill = [c for c in cases[:ncorp] if c and c.get("kind") == "refill"]
     corpus_const = [c for c in cases[:ncorp] if c and c.get("kind") == "constant-channels"]
     ncorp = len([c for c in cases[:ncorp] if c and "freq" in c])
@@ -1419,6 +1529,9 @@ def run(ctx):
                 m["reversed"] = True
             fam[bi].append(len(cases))
             cases.append(m)
+    for i, c in enumerate(cases):
+        if i % 3 == 1 and c.get("kind", "").split("-")[0] != "corpus":
+            c["readonly"] = True
     exprs = [mpe_expr(c) for c in cases]
     uniq = list(dict.fromkeys(exprs))
     res_u = dict(zip(uniq, ctx.coq_eval(HEADER, uniq, shard=ctx.n(14, 100))))
@@ -1455,6 +1568,7 @@ def run(ctx):
     ctx.extra["t_A"] = round(time.time() - ctx.t0, 1)
     part_B(ctx)
     part_B_zero(ctx, corpus_zero)
+    part_B_dtypes(ctx, corpus_dtype)
     ctx.extra["t_AB"] = round(time.time() - ctx.t0, 1)
     part_C(ctx, corpus_nb)
     part_C_scale(ctx)
